@@ -77,9 +77,25 @@ VH_NOINSTR static void vh_reg_fiber(fiber_t* f, int idx_unused) {
   }
 }
 
+/* harness/wrap_fiber_scheduler_wsd.c (linked into every runtime build): names the run queues */
+extern void vh_name_run_queues(void);
+
+/* things the runtime model (Rt) needs from every runtime harness: run queues named, the main
+ * fiber (kernel thread 0's own context, fiber id 0) named and its state word registered */
+VH_NOINSTR static void vh_rt_prepare(void) {
+  static int done;
+  if (done) return;
+  done = 1;
+  vh_name_run_queues();
+  fiber_t* mainf = fiber_manager_get()->thread_fiber;
+  vr_obj(mainf, sizeof *mainf, "F0");
+  vr_reg(&mainf->state, sizeof mainf->state, "F0.state");
+}
+
 /* start the runtime, create one fiber per script entry, wait for all of them */
 VH_NOINSTR static void vh_rt_run(int kthreads, vh_op_fn fn, size_t stack) {
   vh_do_op = fn;
+  vh_rt_prepare();
   for (int t = 0; t < vh_script.nfibers; t++) {
     vh_fibers[t] = fiber_create_no_sched(stack ? stack : 65536, vh_fiber_main, (void*)(long)t);
     vh_reg_fiber(vh_fibers[t], t);
@@ -99,6 +115,7 @@ VH_NOINSTR static void vh_rt_run(int kthreads, vh_op_fn fn, size_t stack) {
  * maintenance loop, which polls events and steals) instead of yield-polling */
 VH_NOINSTR static void vh_rt_run_join(int kthreads, vh_op_fn fn, size_t stack) {
   vh_do_op = fn;
+  vh_rt_prepare();
   for (int t = 0; t < vh_script.nfibers; t++) {
     vh_fibers[t] = fiber_create_no_sched(stack ? stack : 65536, vh_fiber_main, (void*)(long)t);
     vh_reg_fiber(vh_fibers[t], t);
